@@ -20,9 +20,25 @@ def _derived_attrs(P, cn):
     """attributes of class cn stored by a method other than __init__ (through
     self), i.e. values computed from the lens and kept on the helper object"""
     out = {}
+    # constructor helpers: private methods reached from __init__
+    ctor = set()
+    for k in P.mro(cn):
+        init = P.classes[k].methods.get('__init__')
+        todo = [init] if init is not None else []
+        while todo:
+            f_ = todo.pop()
+            for x in ast.walk(f_.node):
+                if isinstance(x, ast.Call) and isinstance(x.func, ast.Attribute)\
+                        and isinstance(x.func.value, ast.Name) and \
+                        x.func.value.id == 'self' and \
+                        x.func.attr.startswith('_'):
+                    g_ = P.lookup(cn, x.func.attr)
+                    if g_ is not None and g_.qual not in ctor:
+                        ctor.add(g_.qual)
+                        todo.append(g_)
     for k in P.mro(cn):
         for m in P.classes[k].methods.values():
-            if m.name == '__init__':
+            if m.name == '__init__' or m.qual in ctor:
                 continue
             for x in ast.walk(m.node):
                 if isinstance(x, ast.Attribute) and isinstance(x.ctx, ast.Store)\
@@ -137,6 +153,37 @@ def stale_cache(ctx, rule, classes, why, min_methods=10):
             else:
                 res.ok(f'{m.qual}: no derived attribute read before it is '
                        f'recomputed')
+    # class-level containers mutated by methods (shared by all instances)
+    for cn in classes:
+        for k in P.mro(cn):
+            for m in P.classes[k].methods.values():
+                if m.name in ('__init_subclass__', '_load_dataframe'):
+                    continue
+                for x in ast.walk(m.node):
+                    tgt = None
+                    if isinstance(x, ast.Subscript) and isinstance(
+                            x.ctx, ast.Store):
+                        tgt = x.value
+                    elif isinstance(x, ast.Call) and isinstance(
+                            x.func, ast.Attribute) and x.func.attr in (
+                            'append', 'setdefault', 'update', 'add'):
+                        tgt = x.func.value
+                    elif isinstance(x, ast.Attribute) and isinstance(
+                            x.ctx, ast.Store):
+                        tgt = x
+                    if isinstance(tgt, ast.Attribute) and isinstance(
+                            tgt.value, ast.Name) and (
+                            tgt.value.id == 'cls' or
+                            tgt.value.id in P.classes) and \
+                            tgt.attr != '_registry':
+                        res.fail(ctx.finding(
+                            rule, m, x,
+                            f'{m.qual} keeps state in the class-level '
+                            f'attribute {tgt.value.id}.{tgt.attr}, shared by '
+                            f'every instance and every call: after a change '
+                            f'of inputs {why}',
+                            construct=f'{m.qual}: class-level state '
+                                      f'{tgt.attr}'))
     res.min_instances = min_methods
     if n < min_methods:
         raise AnalysisError(f'{rule}: only {n} public methods analysed')
